@@ -9,6 +9,7 @@ import (
 
 	"google.golang.org/grpc/codes"
 	"google.golang.org/grpc/status"
+	"google.golang.org/protobuf/proto"
 	"google.golang.org/protobuf/types/known/fieldmaskpb"
 	"google.golang.org/protobuf/types/known/timestamppb"
 
@@ -298,6 +299,16 @@ func publicationScenario(s *hx.Seq) {
 		}
 		firstVersion := cur.Version
 		acked := false
+		if len(path) > 0 && path[0]%2 == 1 {
+			// the same publication given to the constructor instead, already accepted (by a receipt that carries no
+			// time): "models constructed with explicit configuration use it" - it IS acknowledged
+			pre := proto.Clone(cur).(*traits.Publication)
+			pre.Audience.Receipt = traits.Publication_Audience_ACCEPTED
+			m = publicationpb.NewModel(resource.WithClock(clk), publicationpb.WithInitialPublication(pre))
+			srv = publicationpb.NewModelServer(m)
+			acked = true
+			name += " (constructed with the publication already accepted)"
+		}
 		for step, oi := range path {
 			now := epoch.Add(time.Duration(step+1) * time.Minute)
 			clk.t = now
